@@ -36,7 +36,7 @@ dev_impl! {
     }
     /// every (name, got, expected-up-to-iso) pair of one configuration
     pub fn c12_observe(c: &Case) -> Result<Vec<Pair>, String> {
-        let fu = SpecFunctor { spec: &c.spec };
+        let fu = SpecFunctor { spec: &c.spec, native: c.schedules % 2 == 1 };
         let spec = &c.spec;
         let ob = |l: L| spec.ob_of(l);
         let op = |l: L, a: &[L], b: &[L]| spec.image(l, a, b);
@@ -169,7 +169,9 @@ pub fn gen_spec(r: &mut Rng, node_labels: usize) -> FSpec {
             (0..k).map(|_| r.below(out_labels) as L).collect()
         })
         .collect();
-    FSpec { ob, kind: (0..3).map(|_| r.below(4) as u8).collect() }
+    // one third of the functors map every operation to a single operation
+    let all_single = r.chance(1, 3);
+    FSpec { ob, kind: (0..3).map(|_| if all_single { 0 } else { r.below(4) as u8 }).collect() }
 }
 
 impl Check for C12 {
